@@ -140,6 +140,15 @@ def hash_inputs(fn):
     return sorted(used)
 
 
+def digest_shapes(key_fn, ck_fn):
+    """get_source_checksum returns the SHA-1 of the whole, unmodified source; get_cache_key that of name and '|'+filename"""
+    ck_ok = [_u(x) for x in _body(ck_fn)] == ["return sha1(source.encode('utf-8')).hexdigest()"]
+    key_ok = [" ".join(_u(x).split()) for x in _body(key_fn)] == [
+        "hash = sha1(name.encode('utf-8'))", "if filename is not None: hash.update(f'|{filename}'.encode())",
+        "return hash.hexdigest()"]
+    return key_ok, ck_ok
+
+
 def get_bucket_shape(fn):
     want = ["key = self.get_cache_key(name, filename)", "checksum = self.get_source_checksum(source)",
             "bucket = Bucket(environment, key, checksum)", "self.load_bytecode(bucket)", "return bucket"]
@@ -319,6 +328,7 @@ def gen():
     key_in = hash_inputs(find_func(base, "get_cache_key"))
     ck_in = hash_inputs(find_func(base, "get_source_checksum"))
     gb_ok, _ = get_bucket_shape(find_func(base, "get_bucket"))
+    key_sha_ok, ck_sha_ok = digest_shapes(find_func(base, "get_cache_key"), find_func(base, "get_source_checksum"))
     set_ok = [_u(s) for s in _body(find_func(base, "set_bucket"))] == ["self.dump_bytecode(bucket)"]
     fs = find_class(tree, "FileSystemBytecodeCache")
     open_caught, uses_with = fs_load(find_func(fs, "load_bytecode"))
@@ -392,6 +402,10 @@ def writeParts : List String := {strs(wsteps)}
 def keyInputs : List String := {strs(key_in)}
 def checksumInputs : List String := {strs(ck_in)}
 def getBucketShape : Bool := {lbool(gb_ok)}
+-- READ: get_source_checksum is `return sha1(source.encode("utf-8")).hexdigest()` (the whole source, nothing normalised away);
+-- get_cache_key hashes name and, if given, "|" + filename
+def checksumIsSha1OfWholeSource : Bool := {lbool(ck_sha_ok)}
+def keyIsSha1OfNameAndFilename : Bool := {lbool(key_sha_ok)}
 def setBucketDumps : Bool := {lbool(set_ok)}
 
 -- READ: BaseLoader.load: get_source; get_bucket(environment, name, filename, source); compile iff bucket.code is None;
